@@ -1,6 +1,7 @@
 package vc
 
 import (
+	"go/token"
 	"fmt"
 	"strings"
 	"go/ast"
@@ -182,6 +183,7 @@ func (fc *FnCtx) loopHeader(li *loopInfo, st *State) *State {
 		}
 		fc.vals[phi] = fc.freshVal(fmt.Sprintf("L%d_%s", li.ord, hint), phi.Type())
 	}
+	fc.rangeIndexFacts(li, g)
 	li.ghost = map[string]Val{}
 	for _, gv := range ls.Ghosts {
 		li.ghost[gv.Name] = Val{T: fc.S.Fresh(fmt.Sprintf("L%d_%s", li.ord, gv.Name), specSort(gv.Type))}
@@ -435,4 +437,83 @@ func (fc *FnCtx) aboveWatermark(li *loopInfo, st *State, wm *smt.Term) {
 // refValuedKey: does heap key k hold references (as opposed to integers)?
 func (fc *FnCtx) refValuedKey(k string) bool {
 	return fc.refKeys[k]
+}
+
+// rangeIndexFacts assumes -1 <= idx < length for the hidden index of a
+// compiler-generated range loop. The fact is justified by the SSA shape alone,
+// which is checked here: the index phi starts at the constant -1, its only
+// other incoming value is idx+1, the header tests idx+1 < length where length
+// is a len() taken before the loop (or a constant), and every back edge is
+// dominated by the true branch of that test. Any other shape gets no fact.
+func (fc *FnCtx) rangeIndexFacts(li *loopInfo, g *smt.Term) {
+	hdr := li.header
+	for _, in := range hdr.Instrs {
+		phi, ok := in.(*ssa.Phi)
+		if !ok {
+			break
+		}
+		if phi.Comment != "rangeindex" {
+			continue
+		}
+		var incr *ssa.BinOp
+		good := true
+		for i, e := range phi.Edges {
+			pred := hdr.Preds[i]
+			if fc.isBackEdge(pred, hdr) {
+				b, ok := e.(*ssa.BinOp)
+				if !ok || b.Op != token.ADD || b.X != ssa.Value(phi) || b.Block() != hdr {
+					good = false
+					break
+				}
+				c, ok := b.Y.(*ssa.Const)
+				if !ok || c.Value == nil || c.Int64() != 1 {
+					good = false
+					break
+				}
+				incr = b
+			} else {
+				c, ok := e.(*ssa.Const)
+				if !ok || c.Value == nil || c.Int64() != -1 {
+					good = false
+					break
+				}
+			}
+		}
+		if !good || incr == nil {
+			continue
+		}
+		ifi, ok := hdr.Instrs[len(hdr.Instrs)-1].(*ssa.If)
+		if !ok {
+			continue
+		}
+		cmp, ok := ifi.Cond.(*ssa.BinOp)
+		if !ok || cmp.Op != token.LSS || cmp.X != ssa.Value(incr) || cmp.Block() != hdr {
+			continue
+		}
+		length := cmp.Y
+		switch l := length.(type) {
+		case *ssa.Const:
+		case *ssa.Call:
+			bi, isB := l.Call.Value.(*ssa.Builtin)
+			if !isB || bi.Name() != "len" || !l.Block().Dominates(hdr) || l.Block() == hdr {
+				continue
+			}
+		default:
+			continue
+		}
+		body := hdr.Succs[0]
+		for i := range phi.Edges {
+			pred := hdr.Preds[i]
+			if fc.isBackEdge(pred, hdr) && !body.Dominates(pred) {
+				good = false
+			}
+		}
+		if !good || len(body.Preds) != 1 {
+			continue
+		}
+		idx := fc.vals[phi].T
+		lt := fc.term(fc.val(length))
+		fc.assume(g, smt.And(smt.Le(smt.IntLit(-1), idx), smt.Lt(idx, smt.App("ite", smt.Int, smt.Lt(lt, smt.IntLit(0)), smt.IntLit(0), lt))), "range index within bounds (from the SSA shape of the range loop)")
+		fc.Used["range loop index: -1 <= index < len, derived from the compiler-generated loop shape (checked syntactically)"] = true
+	}
 }
